@@ -6,6 +6,9 @@
 // other byte value is handled like `a` by the decoder - it is neither a type byte, nor CR/LF, nor a digit/sign.
 // (Bytes >= 0x80 additionally make from_utf8 fail on length/integer lines, which is an Err like `a` gives.)
 //
+// SCOPE (measured): only the four non-recursive frame types; try_parse/parse with arrays and the encoder round
+// trip do not finish under CBMC (recursive drop glue, BytesMut, integer formatting) - see resp_parser.rs.
+//
 // STUBS (all stated; needed to make CBMC terminate, measured):
 //  * memchr::memchr -> byte loop returning the first index (the crate's runtime CPU dispatch uses cpuid inline asm);
 //  * bytes::Bytes::copy_from_slice -> Bytes::from_static(leaked copy): same contents, no shared-vtable/atomics;
@@ -123,10 +126,27 @@ mod verif_kani_resp_codec {
         core::mem::forget(full);
     }
 
-    // @harness: h_codec_scalars_n5
-    // @bound: all byte strings of length 1..=5 over the 18-symbol alphabet; scalar frame types (+ - : $) via the real parse_* fns; unwind 7
+    // @harness: h_codec_scalars_n4
+    // @bound: all byte strings of length 1..=4 over the 18-symbol alphabet; scalar frame types (+ - : $) via the real parse_* fns; unwind 6
     // @tier: quick
     // @complete: false
+    // @props: C15
+    #[kani::proof]
+    #[kani::unwind(6)]
+    #[kani::stub(dep_memchr, memchr_stub)]
+    #[kani::stub(bytes::Bytes::copy_from_slice, bytes_copy_stub)]
+    #[kani::stub(core::str::from_utf8, from_utf8_ascii_stub)]
+    #[kani::stub(alloc::fmt::format, fmt_format_stub)]
+    #[kani::stub(core::fmt::write, fmt_write_stub)]
+    #[kani::stub(core::fmt::Formatter::pad, fmt_pad_stub)]
+    fn h_codec_scalars_n4() {
+        check_scalars::<4>();
+    }
+    // @harness: h_codec_scalars_n5
+    // @bound: all byte strings of length 1..=5 over the 18-symbol alphabet; scalar frame types (+ - : $) via the real parse_* fns; unwind 7
+    // @tier: thorough
+    // @complete: false
+    // @props: C15
     #[kani::proof]
     #[kani::unwind(7)]
     #[kani::stub(dep_memchr, memchr_stub)]
@@ -138,20 +158,20 @@ mod verif_kani_resp_codec {
     fn h_codec_scalars_n5() {
         check_scalars::<5>();
     }
-
-    // @harness: h_codec_scalars_n4
-    // @bound: all byte strings of length 1..=4 over the 18-symbol alphabet; scalar frame types (+ - : $) via the real parse_* fns; unwind 6
-    // @tier: quick
+    // @harness: h_codec_scalars_n7
+    // @bound: all byte strings of length 1..=7 over the 18-symbol alphabet; scalar frame types (+ - : $) via the real parse_* fns; unwind 9
+    // @tier: thorough
     // @complete: false
+    // @props: C15
     #[kani::proof]
-    #[kani::unwind(6)]
+    #[kani::unwind(9)]
     #[kani::stub(dep_memchr, memchr_stub)]
     #[kani::stub(bytes::Bytes::copy_from_slice, bytes_copy_stub)]
     #[kani::stub(core::str::from_utf8, from_utf8_ascii_stub)]
     #[kani::stub(alloc::fmt::format, fmt_format_stub)]
     #[kani::stub(core::fmt::write, fmt_write_stub)]
     #[kani::stub(core::fmt::Formatter::pad, fmt_pad_stub)]
-    fn h_codec_scalars_n4() {
-        check_scalars::<4>();
+    fn h_codec_scalars_n7() {
+        check_scalars::<7>();
     }
 }
